@@ -38,7 +38,7 @@ TOLERANCES = {
 }
 ASSUMPTIONS = [
     "a transformation correction fills destination voxel v with the source voxel containing the inverse image of the centre of v, and 0 where that lies outside the source (class docstring and code comments)",
-    "quarter turns are judged in the coordinate and voxel-centre expressions only (a rotation of voxel *corners* does not map voxels onto voxels)",
+    "a quarter turn expressed in voxels is the affine map on voxel indices about the index centre (n-1)/2 (e.g. (i,j) -> (n-1-j, i)); in voxel centres and coordinates it is the rotation about the image centre",
 ]
 FLOORS = {
     "quick": {"contract:rotation_state": 1500, "round_trip": 3000, "warp_exact": 500, "coordinate_transformation": 90, "parameter_update_histories": 1000, "mixed_kind_maps": 500},
@@ -227,8 +227,8 @@ def run_shard(spec, R):
         dim = int(rng.choice([2, 2, 3]))
         kind = str(rng.choice(["identity", "translation", "translation", "quarter_turn"])) if dim == 2 else str(rng.choice(["identity", "translation"]))
         mode = str(rng.choice(["coordinate", "voxel", "voxel_center"]))
-        if kind == "quarter_turn" and mode == "voxel":
-            mode = "voxel_center"
+        # (a quarter turn expressed in voxels is the map on voxel *indices* about the index centre (n - 1) / 2, which
+        # maps the index set onto itself)
         payload = str(rng.choice(["scalar", "vector", "series"]))
         as_array = bool(rng.random() < 0.25)
         if kind == "quarter_turn":
@@ -284,6 +284,8 @@ def run_shard(spec, R):
         if kind == "quarter_turn":
             if mode == "coordinate":
                 centre = np.asarray(cs_src.coordinate(np.array(shape) / 2.0), float)
+            elif mode == "voxel":
+                centre = (np.array(shape) - 1) / 2.0
             else:
                 centre = np.array(shape) / 2.0
             A.set_parameters(translation=centre - Q @ centre, scaling=1.0, rotation=np.array([k_turn * np.pi / 2]))
@@ -307,6 +309,10 @@ def run_shard(spec, R):
 
         def src_of(v):
             if mode in ("voxel", "voxel_center"):
+                if kind == "quarter_turn" and mode == "voxel":
+                    ci = (np.array(shape) - 1) / 2.0
+                    w = np.linalg.matrix_power(np.array([[0, 1], [-1, 0]]), k_turn) @ (np.array(v, float) - ci) + ci
+                    return [int(round(x)) for x in w]  # exact integers (or half-integers cancel): index map
                 if kind == "quarter_turn":
                     c = np.array(v) + 0.5
                     w = np.linalg.matrix_power(np.array([[0, 1], [-1, 0]]), k_turn) @ (c - np.array(shape) / 2.0) + np.array(shape) / 2.0
@@ -344,7 +350,7 @@ def run_shard(spec, R):
             good = nbad == 0
             R.skip("ambiguous_centre_on_face", int(np.sum(~judged)))
         R.check(good, "warp_exact", lambda: {**case, "mismatching_voxels": nbad, "out_shape": list(oarr.shape), "exp_shape": list(exp.shape)},
-                key="C01:voxelcenter_to_voxel_truncates_negative" if False else None, group=f"{kind}/{mode}/{dst_kind}")
+                key="C09:voxel_typed_map_floors_at_exact_integers" if (kind == "quarter_turn" and mode == "voxel") else None, group=f"{kind}/{mode}/{dst_kind}")
         if kind == "identity" and dst_kind == "same":
             R.check(np.array_equal(oarr, src), "identity_returns_input", case)
         if kind == "quarter_turn":
